@@ -473,6 +473,16 @@ class Tracer(object):
                 inline = {k: v for k, v in clauseelement.compile().params.items() if v is not None and k in a['cols']}
             except Exception:
                 inline = {}
+        elif getattr(clauseelement, 'whereclause', None) is not None:
+            # delete().where(t.c.article_id == 1, t.c.tag_id == 2): the recorder reads the literals out of the
+            # statement independently of the library (compiled parameters are named after their columns: article_id_1)
+            try:
+                for k, v in clauseelement.compile().params.items():
+                    base = k.rsplit('_', 1)[0]
+                    if v is not None and base in a['cols'] and k not in a['cols']:
+                        inline[base] = v
+            except Exception:
+                inline = {}
         links = []
         for p in plist:
             p = dict(inline, **(p or {}))
